@@ -100,6 +100,7 @@ def search(ctx, n, maxb):
         if key in seen: continue
         seen.add(key)
         ctx.report(key, 'implementation violates C03 predicate: ' + f, {'replay_cmd': '%s %d %d %d' % (exe, ctx.seed, n, maxb), 'failing_input': f})
+    return len(fails)
 
 def run(ctx):
     ctx.build_repo()
@@ -117,5 +118,8 @@ def run(ctx):
                         'the tree theorem is stated for poses as functions of time with the per-joint jet as hypothesis; the per-joint jets are the C05 theorems for the catalogue entries',
                         'CantileverFreeBeam, Custom and FunctionBased mobilizers are not in the catalogue (not exercised)']
     # the finite-difference predicates are cheap and independent of the model: always evaluated
-    search(ctx, 60 if ctx.tier == 'quick' else 1500, 6)
+    nf = search(ctx, 60 if ctx.tier == 'quick' else 1500, 6)
+    # a proof obligation or the correspondence broke but the small search found no input: widen the search before giving up
+    if ctx.broken and not nf and ctx.tier == 'quick':
+        search(ctx, 1500, 6)
     ctx.finish()
